@@ -24,6 +24,8 @@ type c10Case struct {
 	// PauseMs: the commands of a raw payload arrive that many (virtual) milliseconds apart, and every read(2) of a
 	// data file takes 1 ms, so that earlier commands are at work when later ones arrive
 	PauseMs int `json:"pause_ms,omitempty"`
+	// LogLevel: the server's log level ("" = error); at quieter levels the notices the server sends back are empty
+	LogLevel string `json:"server_log_level,omitempty"`
 }
 
 func c10Wire(cs c10Case) []byte {
@@ -40,6 +42,9 @@ func c10Run(cs c10Case, probe string) (viol string, trunc bool) {
 		args := DefaultArgs()
 		args.Logger = "none"
 		args.LogLevel = "error"
+		if cs.LogLevel != "" {
+			args.LogLevel = cs.LogLevel
+		}
 		StartEnv(source.Server, &args, func() {
 			config.Server.MaxLineLength = 64
 			if cs.PauseMs > 0 {
@@ -310,7 +315,18 @@ func c10Cases(thorough bool, emit func(c10Case)) {
 	en := 4
 	c10Seq(etoks, en, " ", func(e string) {
 		emit(c10Case{Kind: "raw", Payload: e + ";"})
+		if len(e) < 24 {
+			for _, lvl := range []string{"fatal", "none", "info", "debug"} {
+				emit(c10Case{Kind: "raw", Payload: e + ";", LogLevel: lvl})
+			}
+		}
 	})
+	for _, lvl := range []string{"fatal", "none", "debug"} {
+		for _, w := range []string{"hello", "cat", "cat " + probe + " regex:noop ", "bogus x", "map", "tail"} {
+			emit(c10Case{Kind: "command", Payload: w, LogLevel: lvl})
+			emit(c10Case{Kind: "health", Payload: w, LogLevel: lvl})
+		}
+	}
 	for _, raw := range []string{";", ";;;", " ;", "protocol 4.1 base64 " + b64, "\x00\xff;", strings.Repeat("A", 70000) + ";"} {
 		emit(c10Case{Kind: "raw", Payload: raw})
 	}
@@ -332,7 +348,7 @@ func init() {
 		ID:    "C10",
 		Level: "exploration",
 		Rule: "client inputs enumerated exhaustively from token alphabets: 9 command words x 12 option suffixes (incl. huge and negative context values) x all sequences of <=2 (quick) / <=3 (thorough) of 16 argument tokens (incl. globs in unclean path form); " +
-			"'map' + all sequences of <=3 / <=4 of 28 query tokens; map followed by a read command; 6 log formats x 4 queries x 5 data files with ragged CSV rows, blank lines, malformed key-value tokens, truncated default-format lines and binary bytes; every ordered pair and triple over 6 well-formed commands (cat of a 1500-line file, cat, tail, grep, two map queries) on one session, back to back and 2 ms apart with 1 ms per read(2) (so that later commands arrive while earlier ones are at work); all <=4-token sequences of 8 protocol-envelope tokens; 3 commands split across two Write " +
+			"'map' + all sequences of <=3 / <=4 of 28 query tokens; map followed by a read command; 6 log formats x 4 queries x 5 data files with ragged CSV rows, blank lines, malformed key-value tokens, truncated default-format lines and binary bytes; every ordered pair and triple over 6 well-formed commands (cat of a 1500-line file, cat, tail, grep, two map queries) on one session, back to back and 2 ms apart with 1 ms per read(2) (so that later commands arrive while earlier ones are at work); all <=4-token sequences of 8 protocol-envelope tokens (the short ones also at server log levels fatal/none/info/debug); 3 commands split across two Write " +
 			"calls at every byte; 8 inputs to a health session; plus, under all schedules within two deviations, 4 sessions whose commands finish together so that several goroutines complete the close hand-shake at once.  Each is fed to a real ServerHandler/HealthHandler under the controlled scheduler (panic in ANY goroutine is caught), " +
 			"then a second user's session on the same limiters must still deliver its file.  non-trivial = distinct input strings",
 		Assumptions: []string{
@@ -347,7 +363,7 @@ func init() {
 				if !c.Mine() || c.Expired() {
 					return
 				}
-				c.Count(cs.Kind + "|" + cs.Payload + "|" + fmt.Sprint(cs.Split, cs.PauseMs))
+				c.Count(cs.Kind + "|" + cs.Payload + "|" + fmt.Sprint(cs.Split, cs.PauseMs) + cs.LogLevel)
 				v, tr := c10Run(cs, probe)
 				if tr {
 					trunc++
